@@ -20,6 +20,12 @@ r = subprocess.run([sys.executable, '/verif/bounded/c02_outputs_native.py'], cap
 d = json.loads(r.stdout.strip().splitlines()[-1])
 violated = bool(d['failures'])
 detail = str(d['failures'][:2])
+""",
+           'C02:static:calculate_likelihood_and_derivatives:output-arrays-allocated-by-this-call': """
+import subprocess, sys
+r = subprocess.run([sys.executable, '/verif/bounded/c02_sequences.py'], capture_output=True, text=True)
+violated = r.returncode == 1
+detail = (r.stdout + r.stderr)[-1500:]
 """}
 
 
@@ -59,9 +65,54 @@ def static_named_outputs():
     return out
 
 
+def static_fresh_workspaces():
+    """Ownership obligation: the arrays handed to the engine to receive the gradient, the Hessian and the BHHH matrix are
+    allocated by THIS call (`np.empty(...)`, unconditionally, last assignment before the engine call), so the outputs of two
+    calls never share storage (the engine returns the arrays it was given; np.asarray does not copy)."""
+    from pyvc.driver import Extra
+    from pyvc.repo import get_repo
+    t0 = time.time()
+    name = 'C02:static:calculate_likelihood_and_derivatives:output-arrays-allocated-by-this-call'
+    ci = get_repo().find_class('BIOGEME')
+    fi = ci.methods.get('calculate_likelihood_and_derivatives') if ci else None
+    if fi is None:
+        return [Extra(name, 'static', 'unknown', 'ast-static', 0.0, 'function not found')]
+    body = fi.node.body
+    call_idx, call = None, None
+    for i, st_ in enumerate(body):
+        for c in ast.walk(st_):
+            if isinstance(c, ast.Call) and isinstance(c.func, ast.Attribute) and c.func.attr == 'calculateLikelihoodAndDerivatives' \
+                    and ast.unparse(c.func.value) == 'self.theC':
+                call_idx, call = i, c
+                break
+        if call is not None:
+            break
+    if call is None or len(call.args) < 6:
+        return [Extra(name, 'static', 'unknown', 'ast-static', 0.0, 'engine call not found at the top level of the function')]
+    problems = []
+    for a in call.args[3:6]:
+        if not isinstance(a, ast.Name):
+            problems.append(f'argument {ast.unparse(a)} is not a local name')
+            continue
+        last = None
+        for st_ in body[:call_idx]:
+            # any binding of the name inside a compound statement is conditional: not accepted
+            for sub in ast.walk(st_):
+                if isinstance(sub, (ast.Name,)) and sub.id == a.id and isinstance(sub.ctx, ast.Store):
+                    last = st_
+        ok = (isinstance(last, ast.Assign) and len(last.targets) == 1 and isinstance(last.targets[0], ast.Name)
+              and isinstance(last.value, ast.Call) and ast.unparse(last.value.func) in ('np.empty', 'np.zeros', 'numpy.empty', 'numpy.zeros'))
+        if not ok:
+            problems.append(f'{a.id} is not bound by an unconditional `{a.id} = np.empty(...)` before the engine call '
+                            f'(last binding: {ast.unparse(last)[:80] if last is not None else None})')
+    ok = not problems
+    return [Extra(name, 'static', 'discharged' if ok else 'failed', 'ast-static', round(time.time() - t0, 4),
+                  'g, h, bh are fresh arrays of this call' if ok else '; '.join(problems), None if ok else {'problems': problems})]
+
+
 def extra(tier, seed):
     from pyvc.bounded import run_native
-    out = static_named_outputs()
+    out = static_named_outputs() + static_fresh_workspaces()
     out.append(run_native('C02:bounded:outputs-native', 'c02_outputs_native.py', [],
                           bound='unique_entry for K in 1..3 incl. zero gradients; named outputs under 3 name->index maps'))
     out.append(run_native('C02:bounded:output-histories', 'c02_sequences.py', [],
